@@ -51,6 +51,18 @@ the chain; histories: remove steps) => no strong (fuzzy) hash for every componen
 un-hashable producer (working directory named in the arguments; fuzzy: also every produced file), by closure along the
 chain (`unhashable`).  Theorems: C16.no_hash_when_producer_has_no_hash, C16.no_hash_down_the_chain.
 
+The source of the executable (section "where the executable comes from"): experiments whose executables are pathless
+system tools, pathless tools shipped in the bin/ directory of the package and found through the PATH of the component
+environment ($INSTANCE_DIR/bin: a directory INSIDE the instance), absolute paths through a link, paths relative to the
+instance, executables that do not exist; Experiment.validateExperiment(checkExecutables=True) (what elaunch runs:
+checkExecutable(updateSpecification=True) on every node rewrites the live configuration) before hashing / between the
+steps of a history.  Oracle: hashes before == after validation (aspect validation, history step validate); the same
+package validated at two places hashes the same (location); every replica of a replicated twin hashes like the
+non-replicated component that does the same work (twin-replicated); the one-aspect pairs on validated experiments.
+Model: Hash.Conf / Conf.validate / cstates (Model/HashExe.lean); theorems C16.hash_ignores_validation,
+hash_ignores_relocation_of_validated_instance, same_work_same_hash_after_validation,
+hash_history_ignores_validations; witness live_executable_depends_on_location_and_validation.
+
 Sessions (the per-object cache + the code that reads hashes while files are written): see the section "sessions"
 below.  Model: Hash.runS / Hash.disciplinedB (Model/HashCache.lean); theorems C16.session_hashes_are_current,
 C16.session_reads_are_current, C16.hash_depends_only_on_producer_cone, witness early_request_freezes_stale_hash.
@@ -170,8 +182,14 @@ def flowir_of(spec):
         rm = backend_doc(c.get("backend") or {})
         if rm:
             d["resourceManager"] = rm
+        if c.get("env"):
+            d["command"]["environment"] = "tools"
         comps.append(d)
-    return yaml.safe_dump({"components": comps})
+    doc = {"components": comps}
+    if any(c.get("env") for c in spec["comps"]):
+        # the PATH of the component environment names a directory INSIDE the instance (what the CWL front-end writes)
+        doc["environments"] = {"default": {"tools": {"PATH": spec.get("path") or "$INSTANCE_DIR/bin:$PATH"}}}
+    return yaml.safe_dump(doc)
 
 
 def comp_of_node(spec, stage, name):
@@ -214,6 +232,8 @@ class World:
             with open(p, "w") as fh:
                 fh.write(content)
             paths.append(p)
+        for fn, script in (spec.get("tools") or {}).items():
+            data["bin/" + fn] = script        # executables shipped with the package
         cwd = os.getcwd()
         try:
             exp = TU.experiment_from_flowir(flowir_of(spec), root, extra_files=data, inputs=paths or None,
@@ -221,7 +241,12 @@ class World:
         finally:
             os.chdir(cwd)
         self.inst = exp.instanceDirectory.location
+        for fn in spec.get("tools") or {}:
+            os.chmod(os.path.join(self.inst, "bin", fn), 0o755)
         self._adopt(exp)
+        self.validated = 0
+        if spec.get("validate"):
+            self.validate()
         g, order, graph = self.g, self.order, self.graph
         # produced files
         for n in order:
@@ -259,8 +284,21 @@ class World:
         w = cls.__new__(cls)
         w.spec = spec
         w.inst = exp.instanceDirectory.location
+        w.validated = 0
         w._adopt(exp)
         return w
+
+    def validate(self):
+        """what elaunch does before anything runs: Experiment.validateExperiment(checkExecutables=True), i.e.
+        ComponentSpecification.checkExecutable(updateSpecification=True) on every node: executables are looked up
+        (PATH of the component environment, links resolved) and the result is written into the live configuration.
+        Executables that cannot be found are left alone (ignoreTestExecutablesError)."""
+        cwd = os.getcwd()
+        try:
+            self.exp.validateExperiment(checkExecutables=True, ignoreTestExecutablesError=True)
+        finally:
+            os.chdir(cwd)
+        self.validated = getattr(self, "validated", 0) + 1
 
     def _adopt(self, exp):
         _G, _TU, _yaml, nx = _imports()
@@ -321,6 +359,7 @@ class World:
         infos = {}
         contents = set()
         fs = {}
+        live = []
         for n in order:
             cs = g.nodes[n]["componentSpecification"]
             cid = cs.identification
@@ -359,6 +398,7 @@ class World:
                 if symbolic:
                     fs[self.sym(loc)] = fs_node(loc)
             replica = cs.customAttributes.get("replica")
+            live.append([cid.stageIndex, cid.componentName, cs.commandDetails.get("executable", "")])
             b = dict(sc.get("backend") or {"kind": "local"})
             common = {"name": cid.componentName, "stage": cid.stageIndex, "location": "$I",
                       "mtime": int(spec.get("mtime") or 0),
@@ -368,9 +408,12 @@ class World:
             mcomps.append(dict(common, refs=refs))
             scomps.append(dict(common, refs=srefs))
         bps = [[c["stage"], c["name"], c["exe"]] for c in spec["comps"]]
-        model = {"op": "world", "bps": bps, "comps": mcomps, "md5": sorted([c, md5s(c)] for c in contents)}
+        # `bps`: the executables as the author wrote them; `live`: what the live configuration holds at this moment
+        # (rewritten by validate()); the model (Hash.hashesC) is given both
+        model = {"op": "world", "bps": bps, "live": live, "comps": mcomps,
+                 "md5": sorted([c, md5s(c)] for c in contents)}
         return {"nodes": nodes, "model": model, "infos": infos, "scomps": scomps, "bps": bps, "fs": fs,
-                "contents": contents}
+                "contents": contents, "live": live}
 
     def close(self):
         shutil.rmtree(self.inst, ignore_errors=True)
@@ -755,6 +798,27 @@ def make_variant(rng, base, aspect, t):
             tw["exe"] = rng.choice([e for e in EXES if e != c["exe"]])
         v["comps"].append(tw)
         exp["twin"] = len(v["comps"]) - 1
+    elif aspect == "twin-replicated":
+        # the same work done by a replicated component: every replica runs the executable, the arguments and the
+        # files of the target
+        if c.get("replicate") or c.get("aggregate"):
+            return None
+        if any(r["kind"] == "comp" and (v["comps"][r["prod"]].get("replicate") or v["comps"][r["prod"]].get("aggregate"))
+               for r in c["refs"]):
+            return None
+        used = [cc["name"] for cc in v["comps"]]
+        cands = [nm for nm in ["many", "fan", "rep", "work", "sweep"] + [nm for nm in NAMES if not nm[-1].isdigit()]
+                 if not any(u.startswith(nm) or nm.startswith(u) for u in used)]
+        if not cands:
+            return None
+        tw = copy.deepcopy(c)
+        tw["name"] = rng.choice(cands)
+        tw["replicate"] = rng.choice([2, 2, 3])
+        v["comps"].append(tw)
+        exp["twin"] = len(v["comps"]) - 1
+    elif aspect == "validation":
+        # the same experiment, hashed after Experiment.validateExperiment(checkExecutables=True) (what elaunch does)
+        v["validate"] = not base.get("validate")
     else:
         raise ValueError(aspect)
     return v, exp
@@ -872,7 +936,14 @@ def oracle_pair(ctx, case, base_obs, var_obs, exp, base):
         for k in tkeys:
             if V[k]["strong"] is None or V[k]["fuzzy"] is None:
                 fail("no-hash-although-every-input-is-present")
-    elif aspect in IRRELEVANT or aspect == "mult:restated":
+    elif aspect == "twin-replicated":
+        k = tkeys[0]
+        for tw in keys_of(var_obs, exp["twin"]):
+            if V[tw]["strong"] is None or V[tw]["fuzzy"] is None or V[k]["strong"] is None or V[k]["fuzzy"] is None:
+                fail("no-hash-although-every-input-is-present")
+            elif (V[tw]["strong"], V[tw]["fuzzy"]) != (V[k]["strong"], V[k]["fuzzy"]):
+                fail("same-work-different-hash:replica")
+    elif aspect in IRRELEVANT or aspect in ("mult:restated", "validation"):
         for n in base_obs["nodes"]:
             k = n["key"]
             if k not in V:
@@ -1072,9 +1143,19 @@ def check_pairs(ctx, pairs):
         exp = case["exp"]
         t = exp["target"]
         nrefs = len(case["base"]["comps"][t]["refs"]) if t < len(case["base"]["comps"]) else 0
-        ctx.case(case, nontrivial=(nrefs >= 1 or exp["aspect"] in ("collision", "image", "exe", "twin-exe", "twin-same")),
+        vtags = []
+        for spec_, obs_ in ((case["base"], bo), (case["variant"], vo)):
+            if spec_.get("validate"):
+                vtags.append("validated")
+                for st_, nm_, exe_ in obs_["live"]:
+                    ci_, _rep = comp_of_node(spec_, st_, nm_)
+                    if exe_ != spec_["comps"][ci_]["exe"]:
+                        vtags.append("validated:executable-rewritten" + ("-into-the-instance" if "/bin/" in exe_ and
+                                                                         ".instance/" in exe_ else ""))
+        ctx.case(case, nontrivial=(nrefs >= 1 or exp["aspect"] in ("collision", "image", "exe", "twin-exe", "twin-same",
+                                                                   "twin-replicated", "validation")),
                  tags=["aspect:" + exp["aspect"], "comps:%d" % len(case["base"]["comps"]),
-                       "target-refs:%d" % min(nrefs, 3)]
+                       "target-refs:%d" % min(nrefs, 3)] + sorted(set(vtags))
                  + ["replicated"] * any(c.get("replicate") for c in case["base"]["comps"])
                  + ["chain:%d" % chain_len(case["base"], t)])
         if exp["aspect"] == "collision":
@@ -1473,12 +1554,15 @@ def mutate_other_length(rng, content):
     return content + rng.choice(["!", "\n", "ZZ", "0"])
 
 
-def gen_history(rng, multi=False, chain=False):
+def gen_history(rng, multi=False, chain=False, exe=False):
     """multi: the experiment has a component that consumes several files with identical contents through one method
     (the steps then prefer to make contents of two files equal / different again: [X, X, Y] <-> [X, Y, Y]);
     chain: the experiment is a chain of producers (the steps prefer to remove and re-create files)"""
     for _ in range(30):
-        spec = gen_chain_world(rng) if chain else gen_mult_base(rng, allow_repl=True)[0] if multi else gen_world(rng)
+        if exe:
+            spec = exe_world(rng, chain=chain)
+        else:
+            spec = gen_chain_world(rng) if chain else gen_mult_base(rng, allow_repl=True)[0] if multi else gen_world(rng)
         cur = initial_contents(spec)
         if cur:
             break
@@ -1493,7 +1577,9 @@ def gen_history(rng, multi=False, chain=False):
         kinds = ["rewrite"] * 6 + ["revert"] * 2 + ["swap"] * 2 + ["remove", "touch", "touch-all", "reload", "reload"]
         if chain:
             kinds += ["remove"] * 6 + ["revert"] * 2
-        if multi or chain:
+        if exe:
+            kinds += ["validate"] * 8
+        if multi or chain or exe:
             kinds += ["equalise"] * (8 if multi else 0)
             kind = rng.choice(kinds)
         else:
@@ -1547,6 +1633,8 @@ def gen_history(rng, multi=False, chain=False):
                         "mtime": rng.choice(["same-second", "later", "earlier"])}
         elif kind == "touch-all":
             step = {"op": "touch-all", "t": 1000000000 + rng.randint(0, 10 ** 8)}
+        elif kind == "validate":
+            step = {"op": "validate"}
         if step is None:
             step = {"op": "reload"}
         if rng.random() < 0.5:
@@ -1632,9 +1720,32 @@ def apply_step(world, step, last_stat, tracked):
     elif kind == "reload":
         world.reload()
         ops.append({"op": "reload"})
+    elif kind == "validate":
+        probes = probes_of(world)
+        world.validate()
+        ops.append({"op": "validate", "base": "$I", "probes": probes})
     else:
         raise ValueError(kind)
     return ops
+
+
+def probes_of(world):
+    """What the operating system answers to the questions ComponentSpecification.checkExecutable asks about the
+    executable each node holds in the live configuration NOW (asked with shutil / os.path, not through the code under
+    test): `which` in the PATH of the component environment, real paths, which of them can be executed."""
+    res = []
+    for n in world.order:
+        cs = world.g.nodes[n]["componentSpecification"]
+        exe = cs.commandDetails.get("executable", "")
+        which = None
+        if "/" not in exe:
+            which = shutil.which(exe, path=(cs.environment or {}).get("PATH", ""))
+        cands = {p_ for p_ in (exe, os.path.join(world.inst, exe), which) if p_ and p_.startswith("/")}
+        reals = {p_: os.path.realpath(p_) for p_ in cands}
+        res.append({"which": world.sym(which) if which else None,
+                    "real": sorted([world.sym(a), world.sym(b)] for a, b in reals.items()),
+                    "ok": sorted({world.sym(b) for b in reals.values() if os.path.exists(b) and os.access(b, os.X_OK)})})
+    return res
 
 
 def snapshot(world, files):
@@ -1681,7 +1792,10 @@ def run_history(case, tmp):
         for op in ops:
             if op["op"] == "write":
                 contents.add(op["content"])
-        request = {"op": "history", "bps": first["bps"], "comps": first["scomps"],
+        sym_live = lambda live: [[st_, nm_, world.sym(e_) if e_.startswith("/") else e_] for st_, nm_, e_ in live]
+        for o in obs:
+            o["live"] = sym_live(o["live"])
+        request = {"op": "history", "bps": first["bps"], "live": obs[0]["live"], "comps": first["scomps"],
                    "fs": [[p, fs[p]] for p in paths if fs[p] is not None], "ops": ops, "paths": paths,
                    "md5": sorted([c, md5s(c)] for c in contents)}
         return {"obs": obs, "request": request, "paths": paths, "files": files}
@@ -1795,12 +1909,18 @@ def check_histories(ctx, cases):
         referenced = set()
         for ci in range(len(spec["comps"])):
             referenced |= {f for f, _m, _p in direct_files(spec, ci)}
-        changing = [s for s in case["steps"] if s["op"] in ("write", "remove", "swap")]
+        changing = [s for s in case["steps"] if s["op"] in ("write", "remove", "swap", "validate")]
         tags = ["history", "comps:%d" % len(spec["comps"]), "steps:%d" % len(case["steps"])]
         for s_ in case["steps"]:
             t = "step:" + s_["op"]
             if s_["op"] == "write":
                 t += ":" + s_["how"] + ":mtime-" + s_["mtime"]
+            elif s_["op"] == "validate":
+                if any(a != b for o_ in hist["obs"] for a, b in zip(o_["live"], hist["obs"][0]["live"])):
+                    tags.append("validated:executable-rewritten")
+                if any(b[2].startswith("$I/") and not a[2].startswith("$I/")
+                       for o_ in hist["obs"] for a, b in zip(hist["obs"][0]["live"], o_["live"])):
+                    tags.append("validated:executable-rewritten-into-the-instance")
             elif s_["op"] in ("touch", "swap"):
                 t += ":mtime-" + s_["mtime"]
             tags.append(t)
@@ -1821,6 +1941,11 @@ def check_histories(ctx, cases):
             ctx.compare("memoization_hash/_fuzzy of every node after every step of a history == Hash.observeHistory "
                         "(hashes of the current file system; md5 := hashlib table)",
                         {"which": "after-step-%d" % (j - 1), "case": case}, model_out(o, m), impl_out(o))
+            if "live" in m:
+                ctx.compare("executables of the live configuration after every step of a history (validation: "
+                            "checkExecutable(updateSpecification=True) on every node) == Hash.validate",
+                            {"which": "live-after-step-%d" % (j - 1), "case": case}, {"live": m["live"]},
+                            {"live": [e_[2] for e_ in o["live"]]})
             mv = dict(zip(hist["paths"], m["views"]))
             ctx.compare("files after every step of a history == Hash.view of Hash.states (write/touch/remove/rename)",
                         {"which": "views-after-step-%d" % (j - 1), "case": case},
@@ -2608,6 +2733,110 @@ def gen_chain_pairs(rng, nworlds, per_world):
     return pairs
 
 
+# ----------------------------------------------------------------------------------------
+# where the executable comes from: the specification as the author wrote it / the validated live configuration
+# ----------------------------------------------------------------------------------------
+# Experiment.validateExperiment(checkExecutables=True) - run by elaunch before anything executes - calls
+# ComponentSpecification.checkExecutable(updateSpecification=True) on every node: pathless executables are looked up in
+# the PATH of the component environment (which may name directories INSIDE the instance: $INSTANCE_DIR/bin), links are
+# resolved (/bin/ls -> /usr/bin/ls), and the resolved absolute path is written into the live configuration.  The
+# property: same executable, same arguments, same files => same hash; the hash does not depend on where the instance
+# lives.  So: hashes before == hashes after validation; the same package validated at two places hashes the same; a
+# replica (whose executable is read from its blueprint) and a non-replicated component doing the same work hash the
+# same; all the one-aspect pairs hold on validated experiments too.
+
+TOOLS = {"tool.sh": "#!/bin/sh\ncat \"$@\"\n", "c16tool": "#!/bin/sh\necho \"$@\"\n"}
+EXES_V = ["/bin/ls", "/bin/cat", "/usr/bin/env", "echo", "cat", "sh", "tool.sh", "tool.sh", "c16tool", "c16tool",
+          "bin/tool.sh", "bin/c16tool", "python", "sander", "exe2"]
+PATHS = ["$INSTANCE_DIR/bin:$PATH", "$INSTANCE_DIR/bin:$PATH", "$INSTANCE_DIR/bin:/usr/bin:/bin",
+         "$PATH:$INSTANCE_DIR/bin", "/usr/bin:$INSTANCE_DIR/bin"]
+
+
+def exe_world(rng, chain=False):
+    """a world of the general family whose executables are pathless system tools, pathless tools shipped in the bin/
+    directory of the package (found through the PATH of the component environment, which names $INSTANCE_DIR/bin),
+    absolute paths through a link, paths relative to the instance, and executables that do not exist"""
+    spec = gen_chain_world(rng) if chain else gen_world(rng)
+    for c in spec["comps"]:
+        if c["backend"].get("kind") in ("kubernetes", "docker"):      # their check would start a container
+            c["backend"] = rng.choice([{"kind": "local"}, {"kind": "lsf", "image": rng.choice(IMAGES + [None])}])
+        c["exe"] = rng.choice(EXES_V)
+        c["env"] = rng.random() < 0.7
+    spec["tools"] = dict(TOOLS)
+    if rng.random() < 0.4:
+        spec["tools"]["cat"] = "#!/bin/sh\nexec /bin/cat \"$@\"\n"   # shadows the system tool where bin/ comes first
+    spec["path"] = rng.choice(PATHS)
+    return spec
+
+
+def gen_exe_pairs(rng, nworlds):
+    pairs = []
+
+    def emit(base, res):
+        if res is not None:
+            pairs.append({"kind": "pair", "base": base, "variant": res[0], "exp": res[1]})
+
+    for _ in range(nworlds):
+        plain = exe_world(rng, chain=rng.random() < 0.3)
+        n = len(plain["comps"])
+        weights = [1 + 2 * len(c["refs"]) + 2 * chain_len(plain, i) for i, c in enumerate(plain["comps"])]
+        pick = lambda: rng.choices(range(n), weights=weights)[0]
+        valid = dict(copy.deepcopy(plain), validate=True)
+        # before against after validation
+        emit(plain, make_variant(rng, plain, "validation", pick()))
+        # the same package validated at two places
+        emit(valid, make_variant(rng, valid, "location", pick()))
+        # a replicated twin (its executable is read from the blueprint) on a validated / an unvalidated experiment
+        for base in (valid, plain if rng.random() < 0.3 else valid):
+            free = [i for i, c in enumerate(base["comps"]) if not c.get("replicate") and not c.get("aggregate")]
+            if free:
+                emit(base, make_variant(rng, base, "twin-replicated", rng.choice(free)))
+        # the one-aspect pairs on validated experiments
+        for aspect in rng.sample(["name", "stage", "order", "mtime", "file-name", "producer-name", "exe", "args",
+                                  "input-content", "produced-content", "producer-exe", "twin-same", "twin-exe",
+                                  "missing-input"], 4):
+            emit(valid, make_variant(rng, valid, aspect, pick()))
+    return pairs
+
+
+def corpus_exe_cases():
+    """`single` and the replicated `many` run the tool shipped in bin/ (found through PATH: $INSTANCE_DIR/bin:$PATH) on
+    the same input; `sys` a pathless system tool; `abs` an absolute path through a link: before / after validation, at
+    two places, replica against non-replica"""
+    inp = {"kind": "input", "file": "msg.txt", "method": "ref", "prod": None, "abs": False,
+           "content": "the same input everywhere\n", "missing": False}
+
+    def comp(name, exe, env=True, replicate=None):
+        c = _comp(name, 0, exe, [[{"r": 0}]], [dict(inp)], replicate=replicate)
+        c["env"] = env
+        return c
+    plain = {"comps": [comp("single", "tool.sh"), comp("sys", "echo", env=False), comp("abs", "/bin/cat", env=False)],
+             "order": None, "mtime": None, "loc": "w", "tools": dict(TOOLS), "path": "$INSTANCE_DIR/bin:$PATH"}
+    valid = dict(copy.deepcopy(plain), validate=True)
+    moved = dict(copy.deepcopy(valid), loc="some/where/else")
+    twin = copy.deepcopy(valid)
+    twin["comps"].append(comp("many", "tool.sh", replicate=2))
+    return [{"kind": "pair", "base": plain, "variant": valid, "exp": {"aspect": "validation", "target": 0},
+             "must_build": True},
+            {"kind": "pair", "base": valid, "variant": moved, "exp": {"aspect": "location", "target": 0},
+             "must_build": True},
+            {"kind": "pair", "base": valid, "variant": twin, "exp": {"aspect": "twin-replicated", "target": 0, "twin": 3},
+             "must_build": True}]
+
+
+def corpus_exe_histories():
+    spec = corpus_exe_cases()[2]["variant"]
+    spec = dict(copy.deepcopy(spec), validate=False)
+    steps = [{"op": "validate"},
+             {"op": "write", "file": ["input", "msg.txt"], "content": "another input\n", "how": "inplace", "mtime": "keep"},
+             {"op": "validate", "order": 5},
+             {"op": "reload"},
+             {"op": "write", "file": ["input", "msg.txt"], "content": "the same input everywhere\n", "how": "replace",
+              "mtime": "later"},
+             {"op": "validate"}]
+    return [{"kind": "history", "spec": spec, "steps": steps, "must_build": True}]
+
+
 def gen_pairs(rng, nworlds, per_world):
     pairs = []
     for _ in range(nworlds):
@@ -2661,14 +2890,28 @@ def run(ctx):
                 "logging off or DEBUG; every CDB look-up and every hash a component ends the run with is compared "
                 "with the hash of a second Experiment object over the files of that moment; non-trivial = at least "
                 "one look-up, one write and one producer; (object) 4-12 reads of the four public hash properties "
-                "of random nodes interleaved with file changes and resets; non-trivial = two reads and a file change.")
+                "of random nodes interleaved with file changes and resets; non-trivial = two reads and a file change. "
+                "Source of the executable: worlds of the same families (local / lsf backends) whose executables are "
+                "pathless system tools, pathless tools shipped in bin/ of the package and found through the PATH of "
+                "the component environment (4 PATH shapes naming $INSTANCE_DIR/bin, a shipped tool shadowing a system "
+                "tool), absolute paths through a link, instance-relative paths, missing executables; pairs: "
+                "unvalidated against validated (Experiment.validateExperiment(checkExecutables=True)), validated at "
+                "two places, a replicated twin (2-3 replicas) of a component on validated / unvalidated experiments, "
+                "4 one-aspect pairs on the validated experiment; histories with validate steps between the file "
+                "changes and reloads.")
     ctx.assumptions = [
         "md5 of the model is a table of hashlib digests filled by the harness (pre-images: file contents and the "
         "serialisations returned by the model); the theorems take md5 as a parameter with Function.Injective md5 as "
         "hypothesis",
         "model inputs (reference spellings, producer numbers, file contents, replica variable, resolved arguments) are "
         "read from the real DataReference / ComponentSpecification objects; executables, blueprint table and backends "
-        "come from the generated specification",
+        "come from the generated specification; the live configuration (`live`, what commandDetails['executable'] "
+        "answers at the moment of the observation) is read from the real objects and handed to the model next to the "
+        "blueprint table; the answers of the operating system to the look-ups of checkExecutable (Hash.Probe: which in "
+        "the PATH of the component environment, real paths, executable bits) are asked with shutil / os.path",
+        "validation is driven through Experiment.validateExperiment(checkExecutables=True, "
+        "ignoreTestExecutablesError=True) on experiments with local / lsf backends only (the kubernetes / docker "
+        "checks start containers; the image rewrite through the container image cache is not driven)",
         "generated arguments contain no %(variable)s, file contents are ASCII text",
         "histories: a hash is observed after memoization_reset() of every node (or on a freshly created Experiment "
         "object); the operations of the file-system model (write/touch/remove/rename) are compared with what "
@@ -2724,6 +2967,15 @@ def run(ctx):
     check_histories(ctx, histories)
     # sessions: the real Controller (and plain readers) ask for hashes while files are being written
     check_sessions(ctx, corpus_sessions() + gen_sessions(rng, 20 if quick else 150, 8 if quick else 60))
+    # the source of the executable: the author's specification / the validated live configuration (last: the random
+    # stream of the parts above is the one earlier versions of this check used)
+    check_pairs(ctx, corpus_exe_cases() + gen_exe_pairs(rng, 5 if quick else 80))
+    histories = corpus_exe_histories()
+    for _ in range(8 if quick else 100):
+        h = gen_history(rng, exe=True, chain=rng.random() < 0.3)
+        if h is not None:
+            histories.append(h)
+    check_histories(ctx, histories)
 
 
 def replay(ctx, doc):
